@@ -121,6 +121,7 @@ def judge_rx(sc, lines_in, impl_out):
 
 class C03(PropBase):
     id = 'C03'
+    partial_passes = 0.25
     lean_modules = ['Isotp.Props.C03']
     theorems = []
     rule = ('one receiver fed well-formed streams from an independent reference encoder: TX_DL in {8..64} x last frame {minimal, padded to 8, next FD '
